@@ -12,7 +12,7 @@ from vlib.rec import REC
 ID = "C15"
 LEVEL = "exploration"
 DECIDING = ["C15.volumes"]
-RULE = ("grids (algorithm, N): cube4D and randomQ, quick N in {1..12,16,20,30,40}, thorough every N in 1..80; 3-D grids with N in {1,2,3} for the "
+RULE = ("grids (algorithm, N): cube4D and randomQ (both algorithms of one N in the same process, alternating order), quick N in {1..12,16,20,30,40,113}, thorough every N in 1..80 plus 100,113,120,150; 3-D grids with N in {1,2,3} for the "
         "equal-share estimate; every cell of every grid is judged against the Monte-Carlo measure. Non-trivial = N>=4; distinct by (algorithm, N)")
 ASSUMPTIONS = ["true measures are Monte-Carlo estimates; decisions use 4 standard errors and sequential enlargement of the sample",
                "bounds of the statement: sum within 12% of pi^2, every cell within 30% of its measure"]
@@ -144,18 +144,21 @@ def drive(alg, N):
 
 
 def shards(tier, seed):
-    Ns = list(range(1, 13)) + [16, 20, 30, 40] if tier == "quick" else list(range(1, 81))
-    jobs = [(a, N, N ** 2 + 300) for a in ("cube4D", "randomQ") for N in Ns]
-    jobs += [(a, N, 100) for a in ("ico", "cube3D", "randomS") for N in (1, 2, 3)]
+    Ns = list(range(1, 13)) + [16, 20, 30, 40, 113] if tier == "quick" else list(range(1, 81)) + [100, 113, 120, 150]
+    # both rotation algorithms of one N run in the SAME process, in alternating order (nothing may be shared between two grids of equal size)
+    jobs = [(N, 2 * N ** 2 + 600) for N in Ns]
     nsh = 16 if tier == "quick" else 48
-    jobs.sort(key=lambda t: -t[2])
+    jobs.sort(key=lambda t: -t[1])
     buckets = [[] for _ in range(nsh)]
     load = [0] * nsh
-    for a, N, c in jobs:
+    for N, c in jobs:
         k = load.index(min(load))
-        buckets[k].append([a, N])
+        pair = [["cube4D", N], ["randomQ", N]]
+        buckets[k].extend(pair if (N + seed) % 2 == 0 else pair[::-1])
         load[k] += c
-    return [{"jobs": b} for b in buckets if b]
+    out = [{"jobs": b} for b in buckets if b]
+    out[-1]["jobs"] = out[-1]["jobs"] + [[a, N] for a in ("ico", "cube3D", "randomS") for N in (1, 2, 3)]
+    return out
 
 
 def run_shard(spec):
